@@ -129,3 +129,123 @@ fn c08_priority_top_bottom_bounded() {
     assert!(o == [b'c', b'b', b'a'], "C08.priority.top_reverses_report_order");
     kani::cover!(true, "cover.reached");
 }
+
+// ---------------------------------------------------------------------------------------------------------
+// time-based priorities: fs::Metadata::{created, modified, accessed} are stubs reading a symbolic table of whole seconds
+// (indexed by the fabricated metadata's index); the real FileSubGroup::{created, modified, accessed}, min_result /
+// max_result, try_sort_by_key and sort_by_priority run on top of them.
+static mut T_CREATED: [u8; 3] = [0; 3];
+static mut T_MODIFIED: [u8; 3] = [0; 3];
+static mut T_ACCESSED: [u8; 3] = [0; 3];
+
+fn stub_format_c08(_args: std::fmt::Arguments<'_>) -> String {
+    String::new()
+}
+
+fn at(secs: u8) -> io::Result<SystemTime> {
+    Ok(SystemTime::UNIX_EPOCH + std::time::Duration::from_secs(secs as u64))
+}
+
+fn stub_created(m: &fs::Metadata) -> io::Result<SystemTime> {
+    at(unsafe { T_CREATED[crate::file::verif_file::metadata_index(m) as usize] })
+}
+
+fn stub_modified(m: &fs::Metadata) -> io::Result<SystemTime> {
+    at(unsafe { T_MODIFIED[crate::file::verif_file::metadata_index(m) as usize] })
+}
+
+fn stub_accessed(m: &fs::Metadata) -> io::Result<SystemTime> {
+    at(unsafe { T_ACCESSED[crate::file::verif_file::metadata_index(m) as usize] })
+}
+
+fn pmi(name: u8, idx: u64) -> Arc<PathAndMetadata> {
+    Arc::new(PathAndMetadata { path: p1(&[name]), metadata: fake_metadata(idx) })
+}
+
+fn times() -> [u8; 3] {
+    let t: [u8; 3] = [kani::any(), kani::any(), kani::any()];
+    kani::assume(t[0] <= 2 && t[1] <= 2 && t[2] <= 2);
+    t
+}
+
+/// Two sub-groups a, b (report order) of one file each: whether they were swapped.
+fn time_sort2(priority: Priority) -> bool {
+    let mut groups = vec![FileSubGroup { files: vec![pmi(b'a', 0)] }, FileSubGroup { files: vec![pmi(b'b', 1)] }];
+    let errs = sort_by_priority(&mut groups, &priority);
+    assert!(errs.is_empty(), "C08.priority.readable_times_never_fail");
+    let swapped = tag(&groups[0].files[0].path) == b'b';
+    std::mem::forget(groups);
+    swapped
+}
+
+/// One unit per time-based priority. The replica with the highest priority (to be dropped first) is sorted LAST:
+/// `newest` = latest creation last, `oldest` = earliest creation last, and likewise for modification and access time;
+/// replicas with equal times keep the report order.
+macro_rules! time_priority_unit {
+    ($name:ident, $table:ident, $prio:expr, $later_last:expr, $ob:expr) => {
+        #[kani::proof]
+        #[kani::stub(std::fs::Metadata::created, stub_created)]
+        #[kani::stub(std::fs::Metadata::modified, stub_modified)]
+        #[kani::stub(std::fs::Metadata::accessed, stub_accessed)]
+        #[kani::stub(alloc::fmt::format, stub_format_c08)]
+        #[kani::unwind(6)]
+        fn $name() {
+            // the three kinds of time are independent of each other: the obligation pins down WHICH one is compared
+            unsafe {
+                T_CREATED = times();
+                T_MODIFIED = times();
+                T_ACCESSED = times();
+            }
+            let t = unsafe { $table };
+            let swapped = time_sort2($prio);
+            let expect = if $later_last { t[0] > t[1] } else { t[0] < t[1] };
+            assert!(swapped == expect, $ob);
+            kani::cover!(swapped, "cover.reordered");
+            kani::cover!(!swapped && t[0] == t[1], "cover.tie");
+        }
+    };
+}
+
+time_priority_unit!(c08_priority_newest_bounded, T_CREATED, Priority::Newest, true,
+    "C08.priority.newest_puts_the_newest_replica_last_ties_in_report_order");
+time_priority_unit!(c08_priority_oldest_bounded, T_CREATED, Priority::Oldest, false,
+    "C08.priority.oldest_puts_the_oldest_replica_last_ties_in_report_order");
+time_priority_unit!(c08_priority_most_recently_modified_bounded, T_MODIFIED,
+    Priority::MostRecentlyModified, true, "C08.priority.most_recently_modified_puts_the_latest_modified_replica_last");
+time_priority_unit!(c08_priority_least_recently_modified_bounded, T_MODIFIED,
+    Priority::LeastRecentlyModified, false, "C08.priority.least_recently_modified_puts_the_earliest_modified_replica_last");
+time_priority_unit!(c08_priority_most_recently_accessed_bounded, T_ACCESSED,
+    Priority::MostRecentlyAccessed, true, "C08.priority.most_recently_accessed_puts_the_latest_accessed_replica_last");
+time_priority_unit!(c08_priority_least_recently_accessed_bounded, T_ACCESSED,
+    Priority::LeastRecentlyAccessed, false, "C08.priority.least_recently_accessed_puts_the_earliest_accessed_replica_last");
+
+/// The time of a sub-group of several paths (a hard-link set, an isolated root): earliest creation, latest modification
+/// and access over its files.
+#[kani::proof]
+#[kani::stub(std::fs::Metadata::created, stub_created)]
+#[kani::stub(std::fs::Metadata::modified, stub_modified)]
+#[kani::stub(std::fs::Metadata::accessed, stub_accessed)]
+#[kani::stub(alloc::fmt::format, stub_format_c08)]
+#[kani::unwind(8)]
+fn c08_subgroup_times_bounded() {
+    let (tc, tm, ta) = (times(), times(), times());
+    unsafe {
+        T_CREATED = tc;
+        T_MODIFIED = tm;
+        T_ACCESSED = ta;
+    }
+    let sg = FileSubGroup { files: vec![pmi(b'a', 0), pmi(b'b', 1)] };
+    let secs = |r: Result<SystemTime, Error>| -> u64 {
+        let v = match &r {
+            Ok(t) => t.duration_since(SystemTime::UNIX_EPOCH).unwrap().as_secs(),
+            Err(_) => u64::MAX,
+        };
+        std::mem::forget(r);
+        v
+    };
+    assert!(secs(sg.created()) == std::cmp::min(tc[0], tc[1]) as u64, "C08.subgroup.created_is_the_earliest_creation_of_its_files");
+    assert!(secs(sg.modified()) == std::cmp::max(tm[0], tm[1]) as u64, "C08.subgroup.modified_is_the_latest_modification_of_its_files");
+    assert!(secs(sg.accessed()) == std::cmp::max(ta[0], ta[1]) as u64, "C08.subgroup.accessed_is_the_latest_access_of_its_files");
+    std::mem::forget(sg);
+    kani::cover!(tc[0] != tc[1], "cover.different_times");
+}
